@@ -1,18 +1,468 @@
-//! C06 — not built yet (stub).
+//! C06 — sheet list and annotations survive save/reload on the same cells.
+use crate::c02::{build_channel, channel_accepts, CHANNELS, SPECIALS};
 use crate::common::*;
+use crate::dump::*;
+use crate::e1::*;
 use crate::pool::*;
-use serde_json::Value;
+use crate::wbuild::*;
+use serde_json::{json, Value};
+use umya_spreadsheet::*;
 
 pub fn entry() -> crate::Entry {
     crate::Entry { id: "C06", run, space, replay }
 }
-pub fn space(_tier: Tier, _id: &str) -> Option<Box<dyn Space>> {
-    None
+
+/// annotation kinds; `counted` kinds take a count from COUNTS
+pub const KINDS: [(&str, bool); 19] = [
+    ("merges", true), ("names-global", true), ("names-local", true), ("names-other-sheet", true), ("names-formula", true), ("ext-links", true), ("int-links", true),
+    ("comments", true), ("validations", true), ("cond-formats", true), ("filter", false), ("tab-color", false), ("panes", false), ("page-setup", false),
+    ("header-footer", false), ("sheet-protection", false), ("book-protection", false), ("visibility", false), ("active-tab", false),
+];
+pub const COUNTS: [u32; 3] = [1, 2, 12];
+pub const LAYOUTS: [&str; 3] = ["single-sheet", "first-of-3", "last-of-3"];
+pub const SHEET_OPS: [&str; 8] = ["none", "remove-first", "remove-last", "rename", "active-0", "active-1", "active-last", "remove-active"];
+
+fn quoted(name: &str) -> String {
+    if name.chars().all(|c| c.is_ascii_alphanumeric()) {
+        name.to_string()
+    } else {
+        format!("'{}'", name.replace('\'', "''"))
+    }
 }
-fn replay(_tier: Tier, _case: &Value) -> Vec<Violation> {
-    vec![]
+
+/// Add `count` annotations of kind `k` to sheet `idx`.
+pub fn add_kind(b: &mut Spreadsheet, idx: usize, k: usize, count: u32) {
+    let sname = b.get_sheet(&idx).unwrap().get_name().to_string();
+    let other = b.get_sheet(&(if idx == 0 { b.get_sheet_count() - 1 } else { 0 })).unwrap().get_name().to_string();
+    match KINDS[k].0 {
+        "merges" => add_merges(b.get_sheet_mut(&idx).unwrap(), count),
+        "names-global" => {
+            for i in 0..count {
+                let _ = b.get_sheet_mut(&idx).unwrap().add_defined_name(format!("Glob_{}", i), format!("{}!$A${}:$B${}", quoted(&sname), i + 1, i + 2));
+            }
+        }
+        "names-local" => {
+            for i in 0..count {
+                let ws = b.get_sheet_mut(&idx).unwrap();
+                let _ = ws.add_defined_name(format!("Loc_{}", i), format!("{}!$C${}", quoted(&sname), i + 1));
+                let n = ws.get_defined_names().len();
+                ws.get_defined_names_mut()[n - 1].set_local_sheet_id(idx as u32);
+            }
+        }
+        "names-other-sheet" => {
+            for i in 0..count {
+                let _ = b.get_sheet_mut(&idx).unwrap().add_defined_name(format!("Oth_{}", i), format!("{}!$D${}", quoted(&other), i + 1));
+            }
+        }
+        "names-formula" => {
+            for i in 0..count {
+                let _ = b.get_sheet_mut(&idx).unwrap().add_defined_name(format!("Frm_{}", i), format!("SUM(1,{})", i));
+            }
+        }
+        "ext-links" => add_ext_links(b.get_sheet_mut(&idx).unwrap(), count, &|i| format!("https://example.com/{}/p{}?x={}", idx, i, i * 7)),
+        "int-links" => add_int_links(b.get_sheet_mut(&idx).unwrap(), count, &|i| format!("{}!A{}", quoted(&other), i)),
+        "comments" => add_comments(b.get_sheet_mut(&idx).unwrap(), count, &|i| match i % 3 { 0 => "Author A".into(), 1 => "Author B".into(), _ => "".into() }, &|i| format!("note {} line", i)),
+        "validations" => add_validations(b.get_sheet_mut(&idx).unwrap(), count, "choose", "\"a,b,c\""),
+        "cond-formats" => {
+            add_cond_formats(b.get_sheet_mut(&idx).unwrap(), count, "20");
+            if count >= 2 {
+                // an expression rule and a colour scale in addition to cellIs
+                let ws = b.get_sheet_mut(&idx).unwrap();
+                let mut list: Vec<ConditionalFormatting> = ws.get_conditional_formatting_collection().to_vec();
+                let mut form = Formula::default();
+                form.set_string_value("$A1>3");
+                let mut rule = ConditionalFormattingRule::default();
+                rule.set_type(ConditionalFormatValues::Expression).set_priority(50).set_formula(form);
+                let mut st = Style::default();
+                st.set_background_color("FF0000FF");
+                rule.set_style(st);
+                let mut seq = SequenceOfReferences::default();
+                seq.set_sqref("R1:R9 T1:T3");
+                let mut cf = ConditionalFormatting::default();
+                cf.set_sequence_of_references(seq);
+                cf.set_conditional_collection(vec![rule]);
+                list.push(cf);
+                ws.set_conditional_formatting_collection(list);
+            }
+        }
+        "filter" => b.get_sheet_mut(&idx).unwrap().set_auto_filter("A1:D9"),
+        "tab-color" => {
+            b.get_sheet_mut(&idx).unwrap().get_tab_color_mut().set_argb("FF00B050");
+        }
+        "panes" => {
+            let ws = b.get_sheet_mut(&idx).unwrap();
+            let mut views = ws.get_sheets_views().clone();
+            let mut list: Vec<SheetView> = views.get_sheet_view_list().to_vec();
+            if list.is_empty() {
+                list.push(SheetView::default());
+            }
+            let mut pane = Pane::default();
+            pane.set_vertical_split(1.0);
+            pane.set_horizontal_split(2.0);
+            let mut tl = Coordinate::default();
+            tl.set_coordinate("C2");
+            pane.set_top_left_cell(tl);
+            pane.set_active_pane(PaneValues::BottomRight);
+            pane.set_state(PaneStateValues::Frozen);
+            list[0].set_pane(pane);
+            let mut sel = Selection::default();
+            sel.set_pane(PaneValues::BottomRight);
+            let mut ac = Coordinate::default();
+            ac.set_coordinate("D5");
+            sel.set_active_cell(ac);
+            let mut seq = SequenceOfReferences::default();
+            seq.set_sqref("D5");
+            sel.set_sequence_of_references(seq);
+            list[0].set_selection(sel);
+            let mut nv = SheetViews::default();
+            for v in list {
+                nv.add_sheet_view_list_mut(v);
+            }
+            let _ = &mut views;
+            ws.set_sheets_views(nv);
+        }
+        "page-setup" => {
+            let ps = b.get_sheet_mut(&idx).unwrap().get_page_setup_mut();
+            ps.set_orientation(OrientationValues::Landscape);
+            ps.set_paper_size(9);
+            ps.set_scale(80);
+        }
+        "header-footer" => {
+            let hf = b.get_sheet_mut(&idx).unwrap().get_header_footer_mut();
+            hf.get_odd_header_mut().set_value("&CHeader &P");
+            hf.get_odd_footer_mut().set_value("&LFooter &D");
+        }
+        "sheet-protection" => add_sheet_protection(b.get_sheet_mut(&idx).unwrap()),
+        "book-protection" => add_book_protection(b),
+        "visibility" => {
+            // hide a sheet that is not the only visible one
+            if b.get_sheet_count() > 1 {
+                let h = if idx == 0 { b.get_sheet_count() - 1 } else { 0 };
+                b.get_sheet_mut(&h).unwrap().set_state(SheetStateValues::Hidden);
+            }
+        }
+        "active-tab" => {
+            let n = b.get_sheet_count() as u32;
+            b.set_active_sheet(n - 1);
+        }
+        _ => {}
+    }
 }
-fn run(_ctx: &Ctx) -> i32 {
-    eprintln!("MACHINERY: C06 is not built yet");
-    2
+
+pub fn build(kinds: &[(usize, u32)], layout: usize, op: usize) -> Spreadsheet {
+    let mut b = new_file();
+    if layout > 0 {
+        b.new_sheet("Data 2").unwrap();
+        b.new_sheet("Third & last").unwrap();
+    }
+    for i in 0..b.get_sheet_count() {
+        add_base_cells(b.get_sheet_mut(&i).unwrap(), &format!("s{}", i));
+    }
+    let idx = if layout == 2 { 2 } else { 0 };
+    for (k, c) in kinds {
+        add_kind(&mut b, idx, *k, *c);
+    }
+    let n = b.get_sheet_count();
+    match SHEET_OPS[op] {
+        "remove-first" if n > 1 => {
+            b.remove_sheet(0).unwrap();
+        }
+        "remove-last" if n > 1 => {
+            b.remove_sheet(n - 1).unwrap();
+        }
+        "rename" => {
+            b.set_sheet_name(n - 1, "Renamed <1>").unwrap();
+        }
+        "active-0" => {
+            b.set_active_sheet(0);
+        }
+        "active-1" if n > 1 => {
+            b.set_active_sheet(1);
+        }
+        "active-last" => {
+            b.set_active_sheet(n as u32 - 1);
+        }
+        "remove-active" if n > 1 => {
+            b.set_active_sheet(1);
+            b.remove_sheet(1).unwrap();
+        }
+        _ => {}
+    }
+    b
+}
+
+// ------------------------------------------------------------------------------------------------
+/// Annotation dump with defined names canonicalised by SCOPE: a name without localSheetId is workbook
+/// scoped whichever object holds it (the reader re-homes such names by the sheet in their address), a name
+/// with localSheetId is scoped to the sheet that holds it.
+pub fn annotations(b: &Spreadsheet) -> Value {
+    let mut v = book_p(b, Opts { styles: false, annotations: true, dims: false });
+    let mut global: Vec<Value> = vec![];
+    let mut scoped: Vec<Value> = vec![];
+    if let Some(a) = v["defined_names"].as_array() {
+        for d in a {
+            if d["local"].is_null() {
+                global.push(json!({"name": d["name"], "address": d["address"], "hidden": d["hidden"]}));
+            } else {
+                scoped.push(json!({"scope_sheet_index": d["local"], "name": d["name"], "address": d["address"], "hidden": d["hidden"]}));
+            }
+        }
+    }
+    if let Some(sheets) = v["sheets"].as_array_mut() {
+        for (si, s) in sheets.iter_mut().enumerate() {
+            if let Some(a) = s["defined_names"].as_array() {
+                for d in a {
+                    if d["local"].is_null() {
+                        global.push(json!({"name": d["name"], "address": d["address"], "hidden": d["hidden"]}));
+                    } else {
+                        scoped.push(json!({"scope_sheet_index": si, "name": d["name"], "address": d["address"], "hidden": d["hidden"]}));
+                    }
+                }
+            }
+            if let Some(m) = s.as_object_mut() {
+                m.remove("defined_names");
+            }
+        }
+    }
+    global.sort_by_key(|x| x.to_string());
+    scoped.sort_by_key(|x| x.to_string());
+    v["defined_names"] = json!({"global": global, "scoped": scoped});
+    v
+}
+
+fn classify(path: &str, l: &str, r: &str) -> String {
+    // /sheets[i]/<field>/... or /<field>
+    let parts: Vec<&str> = path.split('/').filter(|s| !s.is_empty()).collect();
+    let field = if parts.first().map(|p| p.starts_with("sheets")).unwrap_or(false) { parts.get(1).cloned().unwrap_or("sheet") } else { parts.first().cloned().unwrap_or("") };
+    let field: String = field.chars().take_while(|c| *c != '[').collect();
+    let leaf: String = parts.last().cloned().unwrap_or("").chars().filter(|c| !c.is_ascii_digit() && *c != '[' && *c != ']' && *c != '#').collect();
+    let how = if l == "<absent>" {
+        "appeared"
+    } else if r == "<absent>" {
+        "lost"
+    } else {
+        "changed"
+    };
+    if field == "cells" {
+        if path.contains("/link") {
+            return format!("link-{}:{}", how, leaf);
+        }
+        return format!("cell-{}:{}", how, leaf);
+    }
+    format!("{}-{}:{}", field, how, leaf)
+}
+
+pub fn compare_annotations(before: &Value, after: &Value, tags: &[String], case: &Value, sink: &mut Sink, clause: &str) {
+    let tg: Vec<&str> = tags.iter().map(|s| s.as_str()).collect();
+    let mut a = before.clone();
+    let mut seen = std::collections::BTreeSet::new();
+    let mut guard = 0;
+    while let Some((path, l, r)) = first_diff(&a, after) {
+        let sym = classify(&path, &l, &r);
+        if seen.insert(sym.clone()) {
+            sink.violations.push(Violation::new(clause, &sym, &tg, case.clone(), format!("{}: before {} after {}", path, l, r)));
+        }
+        if !crate::c01::patch_pub(&mut a, after, &path) {
+            break;
+        }
+        guard += 1;
+        if guard > 200 {
+            break;
+        }
+    }
+}
+
+fn check(b: &Spreadsheet, light: bool, tags: &[String], case: &Value, sink: &mut Sink) {
+    let before = annotations(b);
+    sink.evaluations += 1;
+    match roundtrip(b, light) {
+        Err(e) => {
+            let tg: Vec<&str> = tags.iter().map(|s| s.as_str()).collect();
+            sink.violations.push(Violation::new("roundtrip-succeeds", &format!("failed:{}", panic_class(&e)), &tg, case.clone(), e));
+        }
+        Ok((_bytes, b2)) => {
+            let after = annotations(&b2);
+            sink.hashes.push(fnv(after.to_string().as_bytes()));
+            compare_annotations(&before, &after, tags, case, sink, "annotations-equal");
+        }
+    }
+}
+
+// ------------------------------------------------------------------------------------------------
+#[derive(Clone)]
+struct KCase {
+    kinds: Vec<(usize, u32)>,
+    layout: usize,
+    op: usize,
+    light: bool,
+}
+
+fn kind_cases(tier: Tier) -> Vec<KCase> {
+    let mut v = vec![];
+    let counts_for = |k: usize| -> Vec<u32> { if KINDS[k].1 { COUNTS.to_vec() } else { vec![1] } };
+    // each kind alone, every count, every layout, both writers
+    for k in 0..KINDS.len() {
+        for c in counts_for(k) {
+            for layout in 0..3 {
+                for light in [false, true] {
+                    v.push(KCase { kinds: vec![(k, c)], layout, op: 0, light });
+                }
+            }
+        }
+    }
+    // every pair of kinds at every count combination (layout first-of-3; thorough: all layouts)
+    for a in 0..KINDS.len() {
+        for b in (a + 1)..KINDS.len() {
+            for ca in counts_for(a) {
+                for cb in counts_for(b) {
+                    let layouts: Vec<usize> = if tier == Tier::Thorough { vec![0, 1, 2] } else { vec![1] };
+                    for layout in layouts {
+                        v.push(KCase { kinds: vec![(a, ca), (b, cb)], layout, op: 0, light: (a + b) % 2 == 1 });
+                    }
+                }
+            }
+        }
+    }
+    // all at once
+    for c in COUNTS {
+        for layout in 0..3 {
+            let kinds: Vec<(usize, u32)> = (0..KINDS.len()).map(|k| (k, if KINDS[k].1 { c } else { 1 })).collect();
+            v.push(KCase { kinds, layout, op: 0, light: false });
+        }
+    }
+    // sheet operations before save: every kind alone (count 2) and all at once, layouts with 3 sheets
+    for op in 1..SHEET_OPS.len() {
+        for layout in [1usize, 2] {
+            for k in 0..KINDS.len() {
+                v.push(KCase { kinds: vec![(k, if KINDS[k].1 { 2 } else { 1 })], layout, op, light: false });
+            }
+            let kinds: Vec<(usize, u32)> = (0..KINDS.len()).map(|k| (k, if KINDS[k].1 { 2 } else { 1 })).collect();
+            v.push(KCase { kinds, layout, op, light: true });
+            v.push(KCase { kinds: vec![], layout, op, light: false });
+        }
+    }
+    v
+}
+
+struct Kinds {
+    cases: Vec<KCase>,
+}
+impl Space for Kinds {
+    fn len(&self) -> u64 {
+        self.cases.len() as u64
+    }
+    fn describe(&self, i: u64) -> Value {
+        let c = &self.cases[i as usize];
+        json!({"kind":"annotations","kinds": c.kinds.iter().map(|(k, n)| format!("{}x{}", KINDS[*k].0, n)).collect::<Vec<_>>(), "layout": LAYOUTS[c.layout], "sheet_op": SHEET_OPS[c.op], "light": c.light})
+    }
+    fn tags(&self, i: u64) -> Vec<String> {
+        let c = &self.cases[i as usize];
+        let mut t: Vec<String> = c.kinds.iter().map(|(k, _)| format!("k:{}", KINDS[*k].0)).collect();
+        if c.kinds.len() > 3 {
+            t = vec!["k:all".into()];
+        }
+        if c.kinds.iter().any(|(k, n)| KINDS[*k].0 == "comments" && *n >= 2) {
+            t.push("comment-with-empty-author".into());
+        }
+        if c.kinds.iter().any(|(_, n)| *n >= 12) {
+            t.push("count:12".into());
+        }
+        if c.op != 0 {
+            t.push(format!("op:{}", SHEET_OPS[c.op]));
+            // conjunction tags kind+op
+            for (k, _) in c.kinds.iter().take(3) {
+                t.push(format!("k:{}+op:{}", KINDS[*k].0, SHEET_OPS[c.op]));
+            }
+        }
+        t.push(format!("layout:{}", LAYOUTS[c.layout]));
+        if c.light {
+            t.push("light-writer".into());
+        }
+        t
+    }
+    fn run(&self, i: u64, sink: &mut Sink) {
+        let c = self.cases[i as usize].clone();
+        let tags = self.tags(i);
+        let case = self.describe(i);
+        let b = match std::panic::catch_unwind(|| build(&c.kinds, c.layout, c.op)) {
+            Ok(b) => b,
+            Err(e) => {
+                let tg: Vec<&str> = tags.iter().map(|s| s.as_str()).collect();
+                sink.violations.push(Violation::new("build", &format!("panic:{}", panic_class(&panic_msg(&e))), &tg, case, panic_msg(&e)));
+                return;
+            }
+        };
+        check(&b, c.light, &tags, &case, sink);
+    }
+}
+
+/// special characters in every annotation channel, through the library's own round trip
+struct Specials {
+    cases: Vec<(usize, usize)>,
+}
+impl Space for Specials {
+    fn len(&self) -> u64 {
+        self.cases.len() as u64
+    }
+    fn describe(&self, i: u64) -> Value {
+        let (c, s) = self.cases[i as usize];
+        json!({"kind":"channel","channel": CHANNELS[c], "special": SPECIALS[s].0, "text": SPECIALS[s].1})
+    }
+    fn tags(&self, i: u64) -> Vec<String> {
+        let (c, s) = self.cases[i as usize];
+        vec![format!("ch:{}", CHANNELS[c]), format!("sp:{}", SPECIALS[s].0), format!("ch:{}+sp:{}", CHANNELS[c], SPECIALS[s].0)]
+    }
+    fn run(&self, i: u64, sink: &mut Sink) {
+        let (c, s) = self.cases[i as usize];
+        let tags = self.tags(i);
+        let case = self.describe(i);
+        let b = match std::panic::catch_unwind(|| build_channel(CHANNELS[c], SPECIALS[s].1)) {
+            Ok(b) => b,
+            Err(_) => return, // reported by C02
+        };
+        check(&b, i % 2 == 1, &tags, &case, sink);
+    }
+}
+
+pub fn space(tier: Tier, id: &str) -> Option<Box<dyn Space>> {
+    match id {
+        "kinds" => Some(Box::new(Kinds { cases: kind_cases(tier) })),
+        "specials" => {
+            let mut cases = vec![];
+            for (ci, ch) in CHANNELS.iter().enumerate() {
+                for (si, (sn, _)) in SPECIALS.iter().enumerate() {
+                    // edge blanks of a bare defined-name formula are not significant (statement: same defined names)
+                    if channel_accepts(ch, sn) && !(*ch == "defined-name-formula" && *sn == "edge-blank") {
+                        cases.push((ci, si));
+                    }
+                }
+            }
+            Some(Box::new(Specials { cases }))
+        }
+        _ => None,
+    }
+}
+
+fn replay(tier: Tier, case: &Value) -> Vec<Violation> {
+    replay_e1(space(tier, case["_space"].as_str().unwrap_or("")), case)
+}
+
+fn run(ctx: &Ctx) -> i32 {
+    let ids = ["kinds", "specials"];
+    let spaces = ids.iter().map(|id| (*id, space(ctx.tier, id).unwrap())).collect();
+    run_e1(
+        ctx,
+        E1Spec {
+            spaces,
+            cfg: PoolCfg { chunk: 16, case_timeout: std::time::Duration::from_secs(120), ..Default::default() },
+            level: "exploration",
+            rule: "annotation kinds x counts {1,2,12} x sheet layouts {single, first of 3, last of 3}: every kind alone, every pair of kinds at every count combination, all kinds at once; sheet operations before save (remove first/last/active, rename, move active tab) for every kind and all at once; every annotation text channel x special string. Oracle: annotation dump (sheet list/order/names/visibility/active tab, merges, defined names, hyperlinks by cell, comments by cell, validations, conditional formats, filter, tab colour, panes/selection, page setup, header/footer, protection) before save == after reload, keyed by cell so that a swap or move is a key mismatch. distinct_nontrivial = distinct reloaded annotation dumps".into(),
+            alphabets: json!({"kinds": KINDS.iter().map(|k| k.0).collect::<Vec<_>>(), "counts": COUNTS, "layouts": LAYOUTS, "sheet_ops": SHEET_OPS, "channels": CHANNELS.len(), "specials": SPECIALS.len(), "kind_cases": kind_cases(ctx.tier).len()}),
+            bounds: json!({"pairs_layouts": if ctx.tier == Tier::Thorough {"all 3 layouts"} else {"first-of-3 only"}, "max_items_per_kind": 12}),
+            exhaustive: true,
+            caps_hit: vec![],
+            assumptions: vec!["hyperlink tooltips and other fields the statement does not list are compared too when the model exposes them; fields the writer is documented to normalise are listed under corrections in DESIGN.md".into()],
+            min_distinct: 50,
+        },
+    )
 }
